@@ -1315,8 +1315,26 @@ class Interp(object):
                 x, y, xc, yc = y, x, yc, xc
             if yc is not None:
                 return self.wrap_int(self.and_const(x, yc))
+            if self.autosplit is not None and not self.pure:
+                lo, hi = self.autosplit
+                for (a_, b_) in ((y, x), (x, y)):
+                    if self.entails_cheap(z3.And(a_ >= lo, a_ < hi)) or self.entails(z3.And(a_ >= lo, a_ < hi), 600):
+                        k = self.concretize(a_, 'bit mask')
+                        return self.wrap_int(self.and_const(b_, k))
             raise OutOfReach('& of two symbolic ints')
         if op == 'BitOr':
+            xc, yc = self.unique_const(x), self.unique_const(y)
+            if xc is None and yc is None and self.autosplit is not None and not self.pure:
+                # both symbolic: case split on the operand that is provably inside the split range
+                lo, hi = self.autosplit
+                for (a_, b_) in ((y, x), (x, y)):
+                    if self.entails_cheap(z3.And(a_ >= lo, a_ < hi)) or self.entails(z3.And(a_ >= lo, a_ < hi), 600):
+                        k = self.concretize(a_, 'bit mask')
+                        return self.wrap_int(b_ + k - self.and_const(b_, k)) if k >= 0 else None
+            if yc is not None and yc >= 0 and xc is None and self.pow2_factor(x) == 0:
+                return self.wrap_int(x + yc - self.and_const(x, yc))
+            if xc is not None and xc >= 0 and yc is None and self.pow2_factor(y) == 0:
+                return self.wrap_int(y + xc - self.and_const(y, xc))
             return self.wrap_int(self.or_terms(x, y))
         if op == 'BitXor':
             # a ^ b = (a | b) - (a & b); only supported when bits are disjoint
